@@ -8,6 +8,7 @@
 mod c12;
 mod c14;
 mod c15;
+mod kg;
 mod linf;
 mod real;
 mod shape;
@@ -167,7 +168,7 @@ fn run_verifier(a: &HashMap<String, String>) -> Value {
     let nbc = arg_usize(a, "nbc", 0);
     let lens = lens_per_proof(a, shape.ninst, np);
     let params = SymParams { k };
-    let empty = ShapeCircuit::<SymF> { shape: shape.clone(), proof_idx: 0, gen: None, inst: vec![] };
+    let empty = ShapeCircuit::<SymF> { shape: shape.clone(), proof_idx: 0, gen: None, inst: vec![], cheat: None };
     set_side("K");
     let vk = keygen_vk_with_k::<SymF, SymCS, _>(&params, &empty, k).expect("keygen_vk");
     let inst = sym_instances(np, &lens, nbc);
@@ -243,13 +244,13 @@ fn run_prover(a: &HashMap<String, String>) -> Value {
     let nbc = arg_usize(a, "nbc", 0);
     let lens = lens_per_proof(a, shape.ninst, np);
     let params = SymParams { k };
-    let empty = ShapeCircuit::<SymF> { shape: shape.clone(), proof_idx: 0, gen: None, inst: vec![] };
+    let empty = ShapeCircuit::<SymF> { shape: shape.clone(), proof_idx: 0, gen: None, inst: vec![], cheat: None };
     set_side("K");
     let vk = keygen_vk_with_k::<SymF, SymCS, _>(&params, &empty, k).expect("keygen_vk");
     let pk = keygen_pk::<SymF, SymCS, _>(vk.clone(), &empty).expect("keygen_pk");
     let inst = sym_instances(np, &lens, nbc);
     let circuits: Vec<ShapeCircuit<SymF>> =
-        (0..np).map(|i| ShapeCircuit { shape: shape.clone(), proof_idx: i, gen: Some(sym_witness), inst: inst[i].clone() }).collect();
+        (0..np).map(|i| ShapeCircuit { shape: shape.clone(), proof_idx: i, gen: Some(sym_witness), inst: inst[i].clone(), cheat: None }).collect();
     let all: Vec<Vec<&[SymF]>> = inst.iter().map(|cols| cols.iter().map(|v| &v[..]).collect()).collect();
     let all_refs: Vec<&[&[SymF]]> = all.iter().map(|v| &v[..]).collect();
     set_side("P");
@@ -328,6 +329,7 @@ fn main() {
         "real" => real::run(&a),
         "kzg" => c14::run(&a),
         "batch" => c15::run(&a),
+        "keygen" => kg::run(&a),
         "fft" | "domain" | "kate" | "interp" | "lrange" => c12::run(&sc, &a),
         _ => panic!("unknown scenario {sc}"),
     };
